@@ -132,6 +132,10 @@ func init() {
 		if hi < lo {
 			panic(abort{kind: "infeasible", msg: "empty range " + label})
 		}
+		if rv, ok := in.reused(label); ok {
+			in.concreteInput(label, rv, 64)
+			return in.st.Const(rv, 64)
+		}
 		k := in.choice(int(hi-lo+1), label)
 		v := lo + int64(k)
 		in.concreteInput(label, uint64(v), 64)
@@ -141,6 +145,10 @@ func init() {
 	intrinsics["verifChoice"] = func(in *Interp, fr *frame, a []Value) Value {
 		label := in.mustConcStr(a[0], "label")
 		n := in.mustConst(a[1].(*Term), "n")
+		if rv, ok := in.reused(label); ok {
+			in.concreteInput(label, rv, 64)
+			return in.st.Const(rv, 64)
+		}
 		k := in.choice(int(n), label)
 		in.concreteInput(label, uint64(k), 64)
 		in.out.Bounds[label] = fmt.Sprintf("0..%d", n-1)
@@ -222,6 +230,24 @@ func init() {
 		in.out.Bounds["param:"+name] = fmt.Sprint(v)
 		return in.st.Const(uint64(v), 64)
 	}
+	intrinsics["verifEmitBytes"] = func(in *Interp, fr *frame, a []Value) Value {
+		l := in.mustConcStr(a[0], "label")
+		in.emits = append(in.emits, emitRec{label: l, terms: in.sliceBytes(a[1].(SliceV), 1)})
+		in.observes = append(in.observes, obsRec{label: "emit:" + l, terms: in.sliceBytes(a[1].(SliceV), 1), bytes: true})
+		return nil
+	}
+	intrinsics["verifEmitU64"] = func(in *Interp, fr *frame, a []Value) Value {
+		l := in.mustConcStr(a[0], "label")
+		in.emits = append(in.emits, emitRec{label: l, terms: []*Term{a[1].(*Term)}})
+		in.observes = append(in.observes, obsRec{label: "emit:" + l, terms: []*Term{a[1].(*Term)}})
+		return nil
+	}
+	intrinsics["verifEmitBool"] = func(in *Interp, fr *frame, a []Value) Value {
+		l := in.mustConcStr(a[0], "label")
+		in.emits = append(in.emits, emitRec{label: l, terms: []*Term{in.st.BoolToBV(a[1].(*Term), 8)}})
+		in.observes = append(in.observes, obsRec{label: "emit:" + l, terms: []*Term{in.st.BoolToBV(a[1].(*Term), 8)}})
+		return nil
+	}
 	intrinsics["verifGrowExact"] = func(in *Interp, fr *frame, a []Value) Value {
 		in.growExact = a[0].(*Term).Val != 0
 		return nil
@@ -232,6 +258,15 @@ type obsRec struct {
 	label string
 	terms []*Term
 	bytes bool
+}
+
+// reused returns the value the first program of a dual run chose for this input.
+func (in *Interp) reused(label string) (uint64, bool) {
+	if in.reuse == nil {
+		return 0, false
+	}
+	v, ok := in.reuse[fmt.Sprintf("%s#%d", label, in.varCount[label])]
+	return v, ok
 }
 
 // concreteInput records a concrete harness input so that native replay can reproduce it.
